@@ -233,8 +233,15 @@ def reproduce(net, work, dc, replace_dcline=False, f=1.):
     from ..oracles import balance
     grp = {b: k for k, members in enumerate(balance.fused_groups(net)) for b in members}
     key = np.array([grp[b] for b in net.ext_grid.bus.values])
-    dp = np.array([abs(np.nansum(n2.res_ext_grid.p_mw.values[key == k]) - np.nansum(work.res_ext_grid.p_mw.values[key == k]))
-                   for k in np.unique(key)])
+    sl = net.gen.slack.values.astype(bool) & net.gen.in_service.values if len(net.gen) else np.zeros(0, dtype=bool)
+    gkey = np.array([grp[b] for b in net.gen.bus.values[sl]])
+
+    def slack_p(res, k):
+        p_sl = np.nansum(res.res_ext_grid.p_mw.values[key == k])
+        if sl.any():
+            p_sl += np.nansum(res.res_gen.p_mw.values[sl][gkey == k])       # slack generators share the slack power of the group
+        return p_sl
+    dp = np.array([abs(slack_p(n2, k) - slack_p(work, k)) for k in np.unique(key)])
     if not (dp.max() <= (4 * VIOL_PU * sn * nb + 1e-6) * f):
         out.append("slack power of the reproduced power flow differs by %.3e MW" % dp.max())
     for et, cols in (("line", ("p_from_mw", "p_to_mw")), ("trafo", ("p_hv_mw", "p_lv_mw"))):
